@@ -283,7 +283,7 @@ def isolate_stale_factor(ctx, zr, stats):
 
 
 def isolate_factor_lowered(ctx, zr, stats):
-    """Known finding mark-after-factor-lowered, on purpose (or, once fixed, the demand that it stays fixed)."""
+    """The trigger of finding mark-after-factor-lowered (fixed by d6af85d), on purpose: any rejection is a VIOLATION."""
     script = 'ChangeFactor(1);NodeDown(1);NodeDown(2);Migrate(1,0,"cur");CheckRound(1)'
     d, summ = P.drive(ctx, zr, "coordsim", "isolate-factor-lowered", ["-script", script, "-R", "3", "-N", "5"])
     if summ is None:
@@ -406,10 +406,9 @@ def run(ctx):
                                   num=num // 2, depth=depth, calm=calm, seed=sd + 60 + i))
         for i, (N, R, rset, num) in enumerate([(4, 3, [2, 3], 300), (4, 1, [1, 3], 300), (5, 2, [2, 4], 300), (6, 5, [3, 5], 200),
                                                (5, 3, [1, 3, 4], 300)]):
-            # avoid (known finding mark-after-factor-lowered): at most one node down at a time in these stages
-            for half in (0, 1):
-                rjobs.append(dict(name="factor%d%s" % (i, "ab"[half]), stage="factor-change", N=N, R=R, K=R, rset=rset,
-                                  num=num // 2, depth=depth, calm=True, seed=sd + 70 + i + 10 * half))
+            for calm in (True, False):
+                rjobs.append(dict(name="factor%d%s" % (i, "c" if calm else "w"), stage="factor-change", N=N, R=R, K=R, rset=rset,
+                                  num=num // 2, depth=depth, calm=calm, seed=sd + 70 + i))
         # the REAL rebalanceNamespace (5 s per move): few, short behaviours, many processes
         for i in range(12):
             N, R, P_ = [(3, 2, 2), (4, 2, 3), (4, 3, 2), (5, 3, 3)][i % 4]
